@@ -23,10 +23,11 @@ class C19(Prop):
             for v in (1, 2, 4, 8, 16, 32, 64, 128, 255):
                 kk = [0, 0, 0, 0]; kk[pos] = v; keys.append(bytes(kk))
         routes = ['fmt'] + ['wr%d' % a for a in (0, 2, 3, 4, 5, 6, 7, 8, 9)] + ['rd%d' % a for a in (0, 2, 3, 4, 5, 6, 7, 8, 9)]
-        for n in range(0, 68):
+        lens = list(range(0, 68)) + [68, 69, 70, 71, 72, 127, 128, 129, 130, 131, 255, 256, 257, 1023, 1024, 1025, 4095, 4096, 4097] + ([65535, 65536, 65537] if not quick else [65537])
+        for n in lens:
             payload = bytes((i * 37 + n * 11 + 5) & 255 for i in range(n))
             for r in routes:
-                ks = keys if not quick else rng.sample(keys, 3)
+                ks = (keys if n < 68 else rng.sample(keys, 6)) if not quick else rng.sample(keys, 3 if n < 68 else 1)
                 for key in ks:
                     out.append('MK m%d %s %d %s %s' % (k, r, k % 4, key.hex(), ws.hx(payload))); k += 1
         return out
@@ -41,4 +42,4 @@ class C19(Prop):
         f = case_line.split(' ')
         return None if f[5] == '-' else (f[2], f[4], f[5])
     def distribution(self, cases):
-        return {'routes': dict(collections.Counter(c.split(' ')[2] for c in cases)), 'lengths': '0..=67'}
+        return {'routes': dict(collections.Counter(c.split(' ')[2] for c in cases)), 'lengths': '0..=67 exhaustively, plus 68-72, 127-131, 255-257, 1023-1025, 4095-4097, 65535-65537'}
